@@ -5,6 +5,7 @@ import (
 	"fmt"
 	"io"
 	"net"
+	"os"
 	"time"
 	"unsafe"
 
@@ -82,6 +83,16 @@ type SimConn struct {
 	werrAt            int
 	BytesIn, BytesOut int
 	tok               *netTok
+	rdl, wdl          time.Time // read / write deadlines (zero: none), as on a net.Conn
+}
+
+// expiry returns a channel that fires at the deadline (nil: never) and a stop function.
+func expiry(dl time.Time) (<-chan time.Time, func()) {
+	if dl.IsZero() {
+		return nil, func() {}
+	}
+	t := time.NewTimer(time.Until(dl))
+	return t.C, func() { t.Stop() }
 }
 
 // NewSimConnPair returns (client end, server end).
@@ -102,6 +113,8 @@ var errConnReset = errors.New("simconn: connection reset by peer")
 func (s *SimConn) Read(p []byte) (int, error) {
 	h := s.rd
 	defer s.tok.leave()
+	expired, stop := expiry(s.rdl)
+	defer stop()
 	for {
 		s.tok.enter()
 		if s.closed {
@@ -126,13 +139,24 @@ func (s *SimConn) Read(p []byte) (int, error) {
 			return 0, io.EOF
 		}
 		s.tok.leave()
-		<-h.data
+		select {
+		case <-h.data:
+		case <-expired:
+			s.tok.enter()
+			return 0, os.ErrDeadlineExceeded
+		}
 	}
 }
 
 func (s *SimConn) Write(p []byte) (int, error) {
 	h := s.wr
-	h.wlock <- struct{}{}
+	expired, stop := expiry(s.wdl)
+	defer stop()
+	select {
+	case h.wlock <- struct{}{}:
+	case <-expired:
+		return 0, os.ErrDeadlineExceeded
+	}
 	defer func() { <-h.wlock }()
 	s.tok.enter()
 	defer s.tok.leave()
@@ -154,7 +178,14 @@ func (s *SimConn) Write(p []byte) (int, error) {
 		if room <= 0 {
 			s.c.Probe("net_writer_blocked_window_full")
 			s.tok.leave()
-			<-h.space
+			select {
+			case <-h.space:
+			case <-expired:
+				// part of p is on its way, the rest never will be
+				s.tok.enter()
+				s.c.Fault("net_write_deadline_mid_frame")
+				return done, os.ErrDeadlineExceeded
+			}
 			s.tok.enter()
 			continue
 		}
@@ -217,9 +248,9 @@ func (a simAddr) String() string  { return string(a) }
 
 func (s *SimConn) LocalAddr() net.Addr                { return simAddr(s.name) }
 func (s *SimConn) RemoteAddr() net.Addr               { return simAddr(s.peer.name) }
-func (s *SimConn) SetDeadline(t time.Time) error      { return nil }
-func (s *SimConn) SetReadDeadline(t time.Time) error  { return nil }
-func (s *SimConn) SetWriteDeadline(t time.Time) error { return nil }
+func (s *SimConn) SetDeadline(t time.Time) error      { s.rdl, s.wdl = t, t; return nil }
+func (s *SimConn) SetReadDeadline(t time.Time) error  { s.rdl = t; return nil }
+func (s *SimConn) SetWriteDeadline(t time.Time) error { s.wdl = t; return nil }
 
 // ---- fake websocket ----------------------------------------------------------
 
